@@ -37,7 +37,14 @@ def check_translation(chk, table):
         chk.gaps.append("%s: pcal could not retranslate (%s)" % (table["name"], str(e)[:120]))
         return
     after = T.translation_region(open(dst).read())
-    norm = lambda s: re.sub(r"\s+", " ", s).strip()
+    def norm(s):
+        # the order of names in VARIABLES declarations and in the `vars` tuple is a pcal-version artefact
+        def sort_names(m):
+            names = sorted(x for x in re.split(r"[\s,]+", m.group(2)) if x)
+            return m.group(1) + ", ".join(names) + m.group(3)
+        s = re.sub(r"(VARIABLES?\s)((?:\s*\w+\s*,)*\s*\w+)(\s)", sort_names, s)
+        s = re.sub(r"(vars == <<)(.*?)(>>)", sort_names, s, flags=re.S)
+        return re.sub(r"\s+", " ", s).strip()
     if norm(before) != norm(after):
         chk.violation("C02:%s:stale-translation" % table["name"],
                       "%s: the TLA+ translation checked in differs from pcal's translation of the checked-in PlusCal" % table["spec"],
